@@ -5,15 +5,17 @@ from vf.props import _rtc
 LEVEL = "other"
 LEVEL_TEXT = _rtc.MIXED
 EXPLANATION = ("proved: SatCacheMixin._add / unsat_core keep the cached core a tuple of added constraints whose conjunction is unsatisfiable and "
-               "return an empty core iff satisfiable; bounded: tracked plain/composite/hybrid solvers driven to unsat in every add order")
+               "return an empty core iff satisfiable (an annotated constraint and its plain twin are different handles); BackendZ3.add(track=True) points the "
+               "Z3-term table at the constraint being added whatever it held before; bounded: tracked plain/composite/hybrid solvers driven to unsat in every add order")
 TECHNIQUE = "mixin-in-isolation proof of the core invariant + bounded run-time contracts"
 RULE = _rtc.RTC_RULE
-FUNCTIONS = ["SatCacheMixin._add", "SatCacheMixin.unsat_core", "SatCacheMixin.simplify"]
+FUNCTIONS = ["SatCacheMixin._add", "SatCacheMixin.unsat_core", "SatCacheMixin.simplify", "BackendZ3.add (tracked term table)"]
 TRUSTED = _rtc.RTC_TRUSTED + ["Z3's unsat cores; tracking names hash(constraint) do not collide"]
-ASSUMPTIONS = ["BackendZ3._add(track=True)/_unsat_core name mapping is only checked in the bounded part"]
+ASSUMPTIONS = ["BackendZ3._add(track=True)/_unsat_core (assert_and_track names, reading the core back) are only checked in the bounded part"]
 
 
 def tasks(tier, seed=0):
     M = "vf.contracts.mixins"
     out = [task(M, "ob_satcache", f"mixin.SatCacheMixin.{m}/spec+inv", ["C11", "C16"], method=m, tier=tier) for m in ("_add", "unsat_core", "simplify")]
+    out.append(task("vf.contracts.z3solve", "ob_tracked_add", "z3solve.BackendZ3.add/tracked-term-maps-to-the-added-constraint", ["C16"], tier=tier))
     return out + _rtc.rtc_tasks("C16", tier, seed)
